@@ -41,6 +41,8 @@ static const scen_t SCN[] = {
     { "three_comm", 3, 3, 0, 0, 0, { { SEL(0), SEL(0) }, { SCHED(1, 0, 2, 3, 8), SEL(1) }, { SCHED(0, 0, 1, 6) } }, 0, 0 },
     /* G: three streams all active: ring on 2, foreign push from 1 onto 0, everybody selects */
     { "three_streams", 3, 3, 0, 1, 0, { { SEL(0), SEL(0) }, { SCHED(0, 1, 1, 7), SEL(1) }, { SCHED(2, 0, 2, 2, 9), SEL(2) } }, 0, 0 },
+    /* H: minimal two-writer race on stream 0's non-empty queue (owner and a foreign thread push one task each) */
+    { "push_push", 2, 2, 0, 2, 0, { { SCHED(0, 0, 1, 105) }, { SCHED(0, 0, 1, 106) } }, 0, 0 },
 };
 #define NSCN ((int)(sizeof(SCN) / sizeof(SCN[0])))
 
@@ -160,8 +162,8 @@ static void run_scen(const scen_t *sc)
 }
 
 #define R(i) static void run_##i(void) { run_scen(&SCN[i]); }
-R(0) R(1) R(2) R(3) R(4) R(5) R(6)
-static void (*const RUNS[])(void) = { run_0, run_1, run_2, run_3, run_4, run_5, run_6 };
+R(0) R(1) R(2) R(3) R(4) R(5) R(6) R(7)
+static void (*const RUNS[])(void) = { run_0, run_1, run_2, run_3, run_4, run_5, run_6, run_7 };
 
 static const char *g_sched = "lfq"; static int g_k = 2;
 static const char *g_only[8]; static int g_nonly = 0;   /* --only <substring>: keep only matching scenarios */
